@@ -2,7 +2,7 @@ import FatVerif.Proofs.NamesValidate
 import FatVerif.Proofs.NamesGen
 import FatVerif.Proofs.NamesEq
 /-!
-# C15 — names: total validation, (partial) totality of the alias generator's constructor, case-insensitive lookup
+# C15 — names: total validation, totality of the alias generator's constructor, case-insensitive lookup
 
 Model: `FatVerif.Names` (transliteration of `validate_long_name`, `ShortNameGenerator::new`,
 `ShortName::eq_ignore_case`, `DirEntry::eq_name_lfn`, `DirEntry::eq_name`).
@@ -57,54 +57,39 @@ example : validateLongName "a:b" = .error .nameChar := by rfl
 example : validateLongName "a😀" = .error .nameChar := by rfl
 example : InCharset 'é' ∧ ¬ InCharset '?' ∧ ¬ InCharset '\x7f' ∧ ¬ InCharset '😀' := by decide
 
-/-! ## C15.2 (the `ShortNameGenerator::new` part) — FALSE of the code as a total statement: defect F5 -/
+/-! ## C15.2 (the `ShortNameGenerator::new` part) — holds since the repair of defect F5 -/
 
-/-- exactly when `ShortNameGenerator::new` panics: on the empty name and on every name whose first character
-    takes more than one UTF-8 byte (`name[1..]` is then not on a character boundary) -/
-theorem gen_new_panics_iff (s : String) :
-    new s = .error .panic ↔ s.toList = [] ∨ ∃ c cs, s.toList = c :: cs ∧ 128 ≤ c.toNat := by
-  unfold new
-  rw [newL_panic_iff]
-  constructor
-  · rintro (h | ⟨c, cs, h, hc⟩)
-    · exact Or.inl h
-    · refine Or.inr ⟨c, cs, h, ?_⟩
-      have := utf8Size_one_iff c
-      omega
-  · rintro (h | ⟨c, cs, h, hc⟩)
-    · exact Or.inl h
-    · refine Or.inr ⟨c, cs, h, ?_⟩
-      have hp := c.utf8Size_pos
-      have := utf8Size_one_iff c
-      omega
+/-- `ShortNameGenerator::new` returns for every string: `name[first_char_len..]`, `name[..dot_index]` and
+    `name[dot_index + 1..]` are always on character boundaries (the model keeps their panic conditions and this
+    theorem shows they cannot fire), and `new` has no other failure. -/
+theorem gen_new_total : ∀ s : String, ∃ g, new s = .ok g :=
+  fun s => newL_total s.toList
 
-/-- the partial totality that does hold: a non-empty name with an ASCII first character never makes `new`
-    panic (none of the three byte-index slices can fail), and `new` has no other failure -/
-theorem gen_new_total_partial (s : String) (c : Char) (cs : List Char)
-    (h : s.toList = c :: cs) (h1 : c.toNat < 128) : ∃ g, new s = .ok g := by
-  cases hn : new s with
-  | ok g => exact ⟨g, rfl⟩
-  | error e =>
-    have he := newL_error _ _ hn
-    subst he
-    rcases (gen_new_panics_iff s).1 hn with h0 | ⟨c', cs', h', hc⟩
-    · rw [h0] at h; cases h
-    · rw [h] at h'; cases h'; omega
+/-- in particular for every name that passes validation -/
+theorem gen_new_total_valid (s : String) (_ : validateLongName s = .ok ()) : ∃ g, new s = .ok g :=
+  gen_new_total s
 
-example : ∃ g, new "Foo.baR" = .ok g := gen_new_total_partial _ 'F' "oo.baR".toList (by rfl) (by decide)
+/-- what it computes: no dot after the first character ⇒ the whole name is the base; otherwise the name is split
+    at the LAST dot that is not the first character, and the base keeps the first character whatever it is -/
+theorem gen_new_spec (c : Char) (cs : List Char) :
+    ('.' ∉ cs ∧ newL (c :: cs) = .ok (newParts (c :: cs) (c :: cs) none)) ∨
+    (∃ pre post, cs = pre ++ '.' :: post ∧ '.' ∉ post ∧
+      newL (c :: cs) = .ok (newParts (c :: cs) (c :: pre) (some post))) := by
+  rcases newL_cons c cs with ⟨h1, h2⟩ | h
+  · exact Or.inl ⟨rfindDot_none h1, h2⟩
+  · exact Or.inr h
 
-/-- F5: names that make the constructor panic; the second and third are names `validate_long_name` accepts -/
-theorem gen_new_panics_counterexample :
-    new "" = .error .panic ∧ new "é" = .error .panic ∧ new "éa" = .error .panic ∧
-    validateLongName "é" = .ok () ∧ validateLongName "éa" = .ok () :=
-  ⟨rfl, rfl, rfl, rfl, rfl⟩
+example : ∃ g, new "Foo.baR" = .ok g := gen_new_total _
 
-/-- hence the unrestricted statement "for every valid name `new` returns" is false of the code -/
-theorem gen_new_not_total : ¬ ∀ s : String, validateLongName s = .ok () → ∃ g, new s = .ok g := by
-  intro h
-  obtain ⟨g, hg⟩ := h "éa" rfl
-  have : new "éa" = .error .panic := rfl
-  rw [this] at hg; cases hg
+/-- regression: the former F5 witnesses (`""`, `"é"`, `"éa"`) and other names whose first character is multi-byte
+    or a dot now give a generator state -/
+example : (new "").map (·.shortName) = .ok ("           ".toList.map Char.toNat) := rfl
+example : (new "é").map (·.shortName) = .ok ("_          ".toList.map Char.toNat) := rfl
+example : (new "éa").map (·.shortName) = .ok ("_A         ".toList.map Char.toNat) := rfl
+example : (new "é.txt").map (·.shortName) = .ok ("_       TXT".toList.map Char.toNat) := rfl
+example : (new "日本語.txt").map (·.shortName) = .ok ("___     TXT".toList.map Char.toNat) := rfl
+example : (new ".a").map (fun g => (g.shortName, g.lossyConv)) = .ok ("A          ".toList.map Char.toNat, true) := rfl
+example : (new "é").map (fun g => (g.lossyConv, g.nameFits, g.basenameLen)) = .ok (true, true, 1) := rfl
 
 /-! ## C15.4 lookup: matches the long name or the alias ignoring case, and nothing else -/
 
